@@ -60,6 +60,11 @@ Section Ledger.
   Definition single_result (tr : list titem) : Prop :=
     forall a r1 b r2 c, tr = a ++ TEv (Result r1) :: b ++ TEv (Result r2) :: c -> existsb is_start b = true.
 
+  (* What one application of an EVQE operator reports: nothing (speciation), one count (the mutation operators), or one
+     count followed by one result (selection). *)
+  Definition evqe_shape (evs : list event) : Prop :=
+    evs = [] \/ (exists n, evs = [EvalCount n]) \/ (exists n r, evs = [EvalCount n; Result r]).
+
   (* boolean form of single_result (seen: a result was already reported in the current application) *)
   Fixpoint single_result_b (seen : bool) (tr : list titem) : bool :=
     match tr with
